@@ -116,9 +116,10 @@ type fileStatus struct {
 }
 
 type builtVariant struct {
-	V      Variant
-	Root   string
-	Driver string
+	V          Variant
+	Root       string
+	Driver     string
+	RaceDriver string // the same driver built with -race (only when requested)
 	OK     map[string]bool // corpus file base -> usable
 	Status []fileStatus
 }
@@ -149,6 +150,8 @@ func goEnv() []string {
 // buildVariant generates every corpus file with the base plug-in of the variant's runtime and with
 // protoc-gen-fastmarshal (built from /repo), compiles package by package, and links the driver
 // from the packages that compile.
+var wantRaceDriver bool
+
 func buildVariant(v Variant, files []*corpus.File, root, bindir, repo, harnessDir string) (*builtVariant, error) {
 	bv := &builtVariant{V: v, Root: root, OK: map[string]bool{}}
 	if err := os.RemoveAll(root); err != nil {
@@ -252,6 +255,15 @@ func buildVariant(v Variant, files []*corpus.File, root, bindir, repo, harnessDi
 	cmd.Env = goEnv()
 	if out, err := cmd.CombinedOutput(); err != nil {
 		return nil, fmt.Errorf("driver of variant %s does not build: %v\n%s", v.Name(), err, out)
+	}
+	if wantRaceDriver && !v.PerMessage {
+		bv.RaceDriver = filepath.Join(root, "driver-race.bin")
+		cmd := exec.Command("go", "build", "-race", "-o", bv.RaceDriver, "./driver")
+		cmd.Dir = root
+		cmd.Env = goEnv()
+		if out, err := cmd.CombinedOutput(); err != nil {
+			return nil, fmt.Errorf("race driver of variant %s does not build: %v\n%s", v.Name(), err, out)
+		}
 	}
 	return bv, nil
 }
